@@ -78,5 +78,14 @@ NestCases == { LET all == pre \o inn \o post
 \* the inner piece keeps at least one unit in every case above (it starts with a non-space rune)
 ASSUME NestInside == \A c \in NestCases : \A k \in 1..2 : \A j \in 1..2 :
           LET e == c.expect_any[k].entities[j] IN e.len >= 1 /\ e.off + e.len <= c.expect_any[k].units
-ASSUME Dump == \A c \in Cases \cup NestCases : PrintT(ToJson(c))
+\* one builder used for two messages in a row: the result of the first (text and entities as returned by Complete) is
+\* kept by the caller and must not change while the second is built; the second is what a fresh builder would give
+RMsgs == { <<[fmt |-> "bold", text |-> <<"a", "astral">>]>>,
+           <<[fmt |-> "plain", text |-> <<"cjk", "astral">>], [fmt |-> "italic", text |-> <<"a">>]>>,
+           <<[fmt |-> "bi", text |-> <<"astral">>], [fmt |-> "plain", text |-> <<"sp", "a">>], [fmt |-> "bold", text |-> <<"a", "sp">>]>> }
+ReuseCases == { [cls |-> "reuse", in |-> [kind |-> "reuse", first |-> m1, pieces |-> m2],
+                 expect_any |-> << [first_intact |-> TRUE, entities |-> Ents(m2, 1, 0, LastNonEmpty(m2, Len(m2))), units |-> FinalUnits(m2)],
+                                   [first_intact |-> TRUE, entities |-> Ents(m2, 1, 0, 0), units |-> TotalUnits(m2)] >>]
+                : m1 \in RMsgs, m2 \in RMsgs }
+ASSUME Dump == \A c \in Cases \cup NestCases \cup ReuseCases : PrintT(ToJson(c))
 =============================================================================
